@@ -121,8 +121,11 @@ class Segmentation:
             Z = nonzero(P.sum())
             tmp = self.data.T * P.T
             mu = tmp.sum(1) / Z
-            mu_ = mu.reshape((len(mu), 1))
-            sigma = np.dot(tmp, self.data) / Z - np.dot(mu_, mu_.T)
+            # weighted scatter of the CENTRED data (the one-pass form
+            # E[x x^T] - mu mu^T cancels catastrophically for intensities far
+            # from 0)
+            centred = self.data - mu
+            sigma = np.dot(centred.T * P.T, centred) / Z
             self.mu[i] = mu
             self.sigma[i] = sigma
 
